@@ -621,10 +621,11 @@ func (ex *Exec) evalCall(st *State, c *ECall, env *Env, cl *Clause) Value {
 		if o, isLit := sl.Off.Int64(); isLit && o == 0 {
 			return Select(h, sl.Ref)
 		}
-		view := ex.fresh("rowview", ArrayOf(mustLeafSort(sl.Elem)))
-		k := Var("k!row", SInt)
-		st.assume(Forall([]*Term{k}, Eq(Select(view, k), Select(Select(h, sl.Ref), Idx(sl.Off, k)))))
-		return view
+		if mustLeafSort(sl.Elem) != SInt {
+			ex.evalFail(cl, "row of a slice with a non-zero offset: only integer elements")
+		}
+		// deterministic term (the executor may re-evaluate): rowview(r, o)[k] == r[o + k] (builtin axiom)
+		return App("rowview", SArr, Select(h, sl.Ref), sl.Off)
 	case "sameblock":
 		// sameblock(a, b): two slices are views of the same allocation (share memory)
 		a := ex.evalIn(st, c.Args[0], env, cl)
